@@ -145,11 +145,14 @@ def namesGo : Bytes → Bytes → List Bytes → Res (List Bytes)
     else namesGo r (cur ++ [b]) acc
 
 /-- `read_reference_sequence_names`: `l_nm` (`i32` → `u64`), then
-`BufReader::new(reader.take(l_nm))` read to its end -/
+`BufReader::new(reader.take(l_nm))` read to its end by `read_names`; after the names
+`names_reader.into_inner().limit() > 0` — the stream ended before `l_nm` bytes — is
+`UnexpectedEof` (/repo `fix:` 125ecd7; before it the names that were there were accepted) -/
 def readNames : Rd (List Bytes) := do
   let l ← readCountI32
   let w ← Rd.window l
-  Rd.lift (namesGo w [] [])
+  let names ← Rd.lift (namesGo w [] [])
+  if w.length < l then Rd.fail .eof else return names
 
 /-- `read_header` (noodles-csi `io/reader/index/header.rs`) -/
 def readHeader : Rd Header := do
@@ -201,11 +204,13 @@ def validateGeometry (ms d : Nat) : Res Unit := do
   else return ()
 
 /-- `read_aux`: `l_aux` (`i32` → `u64`); when positive the header is read from
-`reader.take(l_aux)`, and what the header reader leaves of those bytes is NOT skipped -/
+`reader.take(l_aux)`, and what the header reader leaves of those bytes is read and dropped
+(`io::copy(&mut aux_reader, &mut io::sink())?`, /repo `fix:` 8288cb5; before it the rest was left in
+the stream and read as `n_ref`) -/
 def readAux : Rd (Option Header) := do
   let len ← readCountI32
   if len > 0 then do
-    let h ← Rd.withTake len readHeader
+    let h ← Rd.withTakeDrain len readHeader
     return some h
   else return none
 
